@@ -73,6 +73,7 @@ def check_sem_log(log, S, value, maxv):
     inflight = {}
     creq = set()
     pc = set()
+    commanded = set()  # actors whose "dirty" op has been commanded but has not begun yet
     must_cancel = set()
 
     def tau(s):
@@ -97,12 +98,17 @@ def check_sem_log(log, S, value, maxv):
                 continue
             if e[0] in ("cancel", "ncancel") and e[1] in inflight:
                 creq.add(e[1])
+            elif e[0] == "cancel" and e[1] in commanded:
+                pc.add(e[1])  # scope cancelled during the prelude of a "dirty" op: as if pre-cancelled
+            elif e[0] == "cmd" and e[2][0] == "dirty":
+                commanded.add(e[1])
             continue
         if kind == "x" and ev[5] == "pc":
             pc.add(ev[3])
             continue
         if kind == "b" and ev[5] == "acquire" and ev[6] == [S]:
             t = ev[3]
+            commanded.discard(t)
             inflight[t] = ev[4]
             if t in pc:
                 creq.add(t)
